@@ -238,7 +238,7 @@ def dup_case(ctx, k):
             if r0.rc != 0:
                 return
         shape = rng.choice(["two-record-outputs", "two-record-outputs", "record-and-text", "pair-same-file", "pair-shared-first-file",
-                            "stdout-and-dash", "expanded-name-shares-one-file", "two-spellings", "two-spellings", "text-equals-expanded-name"])
+                            "stdout-and-dash", "expanded-name-shares-one-file", "two-spellings", "two-spellings", "text-equals-expanded-name", "expanded-pair-same-file"])
         ctx.count("duplicate_path_shape:" + shape)
         if shape == "two-spellings":
             # one file under two spellings
@@ -262,6 +262,27 @@ def dup_case(ctx, k):
             if got != want_n:
                 ctx.violation("duplicate-path-clobbered", f"one file given under two spellings ({other} and dup.fastq) was accepted; exit 0, but the file holds {got} parseable "
                               f"records of the {want_n} written; argv={argv}", case, facts=dict(shape=shape))
+            return
+        if shape == "expanded-pair-same-file":
+            # the two templates of a pair expand to the same path for one name combination
+            nm = ad["name"]
+            spec2 = ad["argv"][1].split("=", 1)[1]
+            argv = [ad["argv"][0], ad["argv"][1], ad["argv"][0].upper(), f"{nm}={spec2}", "--discard-untrimmed",
+                    "-o", "e.{name1}-{name2}.fq", "-p", "e.{name2}-{name1}.fq", "--json", "rep.json"] + inputs + inputs
+            run = climon.run(d, argv, tag="dup", trace=False)
+            ctx.count("duplicate_path_runs")
+            ctx.case(("dup", str(argv), shape))
+            case = climon.case_record(argv, d, inputs)
+            case["dup_k"] = k
+            if run.rc != 0:
+                ctx.count("duplicate_path_refused")
+                return
+            n_out = run.json_report()["read_counts"]["output"]
+            fo = run.records(f"e.{nm}-{nm}.fq")
+            got = len(fo[1]) if fo and fo[0] != "error" else None
+            if got != 2 * n_out:
+                ctx.violation("duplicate-path-clobbered", f"both files of a pair expand to e.{nm}-{nm}.fq; exit 0, {n_out} pairs written, the file holds {got} parseable records; argv={argv}",
+                              case, facts=dict(shape=shape))
             return
         if shape == "text-equals-expanded-name":
             nm = ad["name"]
